@@ -1,4 +1,5 @@
 import AiutiVerif.Batcher.Outcome
+import AiutiVerif.Batcher.Invariant
 /-!
 # Batcher property theorems (C04, C09, C10, C11)
 
@@ -144,7 +145,98 @@ theorem C11_fresh_adds_work (s : St) (t cid arg key : Nat)
     s1.waiting = s0.waiting ++ [(cid, s0.futs.length)] := by
   simp [applyIn, In.time, h]
 
+/-! ## C10 — size, slots, FIFO: for every program of inputs, at every instant
+
+`Fresh s0` = a newly constructed batcher (any configuration, any batch-function plan);
+`ins` = any list of timed inputs (calls with any keys, cancellations, `max_batch_size` mutations);
+the statements hold after every prefix of the inputs (`ins.foldl applyIn s0`, every list is a prefix
+of a longer one) and after everything has drained (`runProgram`). -/
+
+/-- **Batch sizes.** Every batch ever announced to the batch function (the `batch` records of the
+output stream, the ones the correspondence check compares with the real batcher) is non-empty
+and no larger than the largest `max_batch_size` in force while it was assembled; in particular
+no larger than `M` when the constructor value and all mutations are within `M`. (`max 1`: the
+real `_get_next_batch` always takes the first item, so `max_batch_size = 0` behaves as 1.) -/
+theorem C10_batch_sizes (M : Nat) (s0 : St) (hf : Fresh s0) (hM : s0.maxb ≤ M) (ins : List In)
+    (hw : setsWithin M ins) :
+    let s := runProgram s0 ins
+    outSizes s.outs = s.batchLog.map (·.1) ∧
+    ∀ p ∈ s.batchLog, 1 ≤ p.1 ∧ p.1 ≤ max 1 p.2 ∧ p.2 ≤ M := by
+  have h := runProgram_J s0 ins (Jq_fresh s0 hf hM) hw
+  exact ⟨h.logOuts, fun p hp => h.logOk p hp⟩
+
+theorem C10_batch_sizes_out (M : Nat) (s0 : St) (hf : Fresh s0) (hM : s0.maxb ≤ M) (ins : List In)
+    (hw : setsWithin M ins) : ∀ n ∈ outSizes (runProgram s0 ins).outs, 1 ≤ n ∧ n ≤ max 1 M := by
+  obtain ⟨h1, h2⟩ := C10_batch_sizes M s0 hf hM ins hw
+  intro n hn
+  rw [h1, List.mem_map] at hn
+  obtain ⟨p, hp, rfl⟩ := hn
+  have := h2 p hp
+  omega
+
+/-- The same at every intermediate instant (after any prefix of the inputs). -/
+theorem C10_batch_sizes_prefix (M : Nat) (s0 : St) (hf : Fresh s0) (hM : s0.maxb ≤ M) (ins : List In)
+    (hw : setsWithin M ins) : ∀ n ∈ outSizes (ins.foldl applyIn s0).outs, 1 ≤ n ∧ n ≤ max 1 M := by
+  have h := foldl_applyIn_J ins s0 (Jq_fresh s0 hf hM) hw
+  intro n hn
+  rw [h.logOuts, List.mem_map] at hn
+  obtain ⟨p, hp, rfl⟩ := hn
+  have := h.logOk p hp
+  simp only [okSize] at this
+  omega
+
+/-- **Concurrency.** Never more than `max_concurrent_batches` executions of the batch function
+are in progress: at every instant the list of running batches is within the configured limit
+(which nothing ever changes), and every running batch is itself within the size limits. -/
+theorem C10_concurrency (M : Nat) (s0 : St) (hf : Fresh s0) (hM : s0.maxb ≤ M) (ins : List In)
+    (hw : setsWithin M ins) :
+    (ins.foldl applyIn s0).running.length ≤ s0.maxc ∧ (runProgram s0 ins).running.length ≤ s0.maxc := by
+  have h1 := foldl_applyIn_J ins s0 (Jq_fresh s0 hf hM) hw
+  have h2 := runProgram_J s0 ins (Jq_fresh s0 hf hM) hw
+  have e1 := foldl_applyIn_maxc ins s0
+  have e2 : (runProgram s0 ins).maxc = s0.maxc := by unfold runProgram; rw [advance_maxc, e1]
+  exact ⟨by rw [← e1]; exact h1.slots, by rw [← e2]; exact h2.slots⟩
+
+/-- **FIFO.** The queued calls reach the batch function in the order they arrived, within and
+across batches, batches waiting for a slot included: what has been handed over, then what waits
+for a slot, then what is being assembled, then what is still queued, is exactly the arrival
+sequence. In particular the hand-over order is a prefix of the arrival order at every instant. -/
+theorem C10_fifo (M : Nat) (s0 : St) (hf : Fresh s0) (hM : s0.maxb ≤ M) (ins : List In)
+    (hw : setsWithin M ins) :
+    let s := ins.foldl applyIn s0
+    s.started ++ flatW s.semWait ++ asmFuts s ++ s.queue.map Item.fut = s.arrivals ∧ s.started <+: s.arrivals := by
+  have h := foldl_applyIn_J ins s0 (Jq_fresh s0 hf hM) hw
+  refine ⟨h.fifo, ?_⟩
+  have hf := h.fifo
+  rw [List.append_assoc, List.append_assoc] at hf
+  exact ⟨_, hf⟩
+
+theorem C10_fifo_final (M : Nat) (s0 : St) (hf : Fresh s0) (hM : s0.maxb ≤ M) (ins : List In)
+    (hw : setsWithin M ins) : (runProgram s0 ins).started <+: (runProgram s0 ins).arrivals := by
+  have h := runProgram_J s0 ins (Jq_fresh s0 hf hM) hw
+  have hf := h.fifo
+  rw [List.append_assoc, List.append_assoc] at hf
+  exact ⟨_, hf⟩
+
+/-- Without mutations of `max_batch_size` the bound is the configured one. -/
+theorem C10_batch_sizes_fixed (s0 : St) (hf : Fresh s0) (ins : List In)
+    (hno : ∀ t n, In.setMax t n ∉ ins) : ∀ n ∈ outSizes (runProgram s0 ins).outs, 1 ≤ n ∧ n ≤ max 1 s0.maxb :=
+  C10_batch_sizes_out s0.maxb s0 hf (Nat.le_refl _) ins (fun t n hm => absurd hm (hno t n))
+
 /-! ## Non-vacuity -/
+
+/-- a concrete program: five calls 0,0,1,1,30 with `max_batch_size = 2`, one slot, batches lasting 5 -/
+def demoPlan : Plan := { per := [], order := 0, raiseAt := [], idelay := 5, tail := 0 }
+def demoSt : St := { maxb := 2, maxc := 1, bt := 10, ret := 0, plan := demoPlan }
+def demoIns : List In :=
+  [.call 0 0 0 0, .call 0 1 1 1, .call 1 2 2 2, .call 1 3 3 3, .call 30 4 4 4]
+example : Fresh demoSt := by simp [Fresh, demoSt]
+example : (runProgram demoSt demoIns).batchLog = [(2, 2), (2, 2), (1, 2)] := by decide +kernel
+example : (runProgram demoSt demoIns).started = (runProgram demoSt demoIns).arrivals := by decide +kernel
+/-- at t = 3 one batch is running in the only slot and the second, already full, waits for it -/
+example : ((demoIns.take 4 ++ [In.call 3 9 9 9]).foldl applyIn demoSt).running.length = 1 ∧
+    ((demoIns.take 4 ++ [In.call 3 9 9 9]).foldl applyIn demoSt).semWait.length = 1 := by decide +kernel
+
 
 example : specOutcome [0, 1, 2] [.yield 2 (.val 2 7 0), .yield 0 (.err 2000), .yield 2 (.val 999 0 0), .fin] [] 0
     = some (.exc 2000) := by decide
